@@ -28,8 +28,24 @@ extern bool g_active;
 Obj* obj(int fd);
 int alloc(int kind);
 uint32_t readiness(const Obj& o);
-inline void step(const void* addr) { vmcrt::point(addr, vmcrt::K_KERNEL); }
-inline void wrote(const void* addr, uint64_t v) { vmcrt::observed(addr, vmcrt::K_RMW, v, true); }
+// ThreadSanitizer flavour: operations on one kernel object are ordered by the kernel (TSan models the same for real
+// descriptors: write/close release, read/epoll_wait acquire); the simulator is not instrumented, so say it explicitly
+extern "C" void __tsan_acquire(void*) __attribute__((weak));
+extern "C" void __tsan_release(void*) __attribute__((weak));
+extern "C" void AnnotateIgnoreReadsBegin(const char*, int) __attribute__((weak));
+extern "C" void AnnotateIgnoreReadsEnd(const char*, int) __attribute__((weak));
+extern "C" void AnnotateIgnoreWritesBegin(const char*, int) __attribute__((weak));
+extern "C" void AnnotateIgnoreWritesEnd(const char*, int) __attribute__((weak));
+// the simulator's own data structures are "kernel memory": its accesses are not part of the program under test
+struct KIgn {
+  KIgn() { if (AnnotateIgnoreReadsBegin) { AnnotateIgnoreReadsBegin("", 0); AnnotateIgnoreWritesBegin("", 0); } }
+  ~KIgn() { if (AnnotateIgnoreReadsBegin) { AnnotateIgnoreWritesEnd("", 0); AnnotateIgnoreReadsEnd("", 0); } }
+  KIgn(const KIgn&) = delete;
+};
+inline void k_acquire(const void* a) { if (__tsan_acquire) __tsan_acquire(const_cast<void*>(a)); }
+inline void k_release(const void* a) { if (__tsan_release) __tsan_release(const_cast<void*>(a)); }
+inline void step(const void* addr) { vmcrt::point(addr, vmcrt::K_KERNEL); k_acquire(addr); }
+inline void wrote(const void* addr, uint64_t v) { k_release(addr); vmcrt::observed(addr, vmcrt::K_RMW, v, true); }
 bool fault(int call);
 // hooks the uring simulator installs (null when it is not linked)
 extern void (*on_state_change)();          // some descriptor's readiness may have changed
